@@ -639,9 +639,9 @@ def long_shapes(spec, pk, tier):
     # a list length applies at every nesting level: 255 elements of 255 elements is outside the bound, such packets keep the short shapes
     has_rep = any(f.repeat for f in pk.fields) and not any(spec.resolve(f)[0] == 'obj' and lists_inside(spec.resolve(f)[1], 1) for f in pk.fields)
     if spec.strpfx() == 'u8' and has_dyn:
-        out += [Shape(n, 1) for n in ((200,) if tier == 'quick' else (127, 128, 255))]
+        out += [Shape(n, 1) for n in ((200, 255) if tier == 'quick' else (127, 128, 254, 255))]
     if spec.listpfx() == 'u8' and has_rep:
-        out += [Shape(1, n) for n in ((130,) if tier == 'quick' else (127, 128, 255))]
+        out += [Shape(1, n) for n in ((130, 255) if tier == 'quick' else (127, 128, 254, 255))]
     return out
 
 
